@@ -566,6 +566,19 @@ def gen_tucker_mu_signed_configs(tier, rng):
                    opts=dict(tol=0, normalize=(k % 4 == 3)))
 
 
+def gen_tucker_hals_core_sparsity_configs(tier, rng):
+    """round 8: non_negative_tucker_hals(algorithm='fista') with a LARGE core_sparsity_coefficient on signed / sparse data, caps 2-4, tol 0: many core entries are driven onto the
+    bound by the l1 shift, where the FISTA momentum iterate x_new + beta (x_new - x) is negative from the second inner iteration on (beta = 0 in the first): only the
+    projected iterate may be returned"""
+    for k in range(6 if tier == "quick" else 36):
+        order = (2, 3, 3)[k % 3]
+        shape = tuple(rng.randint(3, 4) for _ in range(order))
+        ranks = [rng.randint(2, 3) for _ in shape]
+        X = gen_tensor(rng, shape, ("signed", "sparse", "nonneg", "lowrank")[k % 4])
+        yield dict(algo="nn_tucker_hals", tensor=X, klass="core-sparsity", rank=list(ranks), init=("random", "svd")[k % 2], n=(2, 3, 4)[k % 3], rs=rng.randrange(10 ** 6),
+                   nn_modes="all", opts=dict(tol=0, normalize=(k % 5 == 4), fixed_modes=None, sparsity=None, algorithm="fista", core_sparsity=rng.choice([0.5, 2.0, 5.0]), exact=False))
+
+
 def quiet_run(cfg):
     with warnings.catch_warnings():
         warnings.simplefilter("ignore")
@@ -765,6 +778,8 @@ def run(chk):
             evaluate_cfg(chk, cfg, stats)
     for cfg in gen_tucker_mu_signed_configs(chk.tier, random.Random(chk.seed * 7919 + 8)):      # round 8 stream, own generator
         evaluate_cfg(chk, cfg, stats)
+    for cfg in gen_tucker_hals_core_sparsity_configs(chk.tier, random.Random(chk.seed * 7919 + 9)):
+        evaluate_cfg(chk, cfg, stats)
     for cfg in gen_solver_cfgs(chk.tier, rng):
         evaluate_solver(chk, cfg, stats)
     stage("decomposition_runs")
@@ -790,7 +805,7 @@ def run(chk):
                        "(partial nn_modes, own / user line search), OCcpE (raw non_negative argument), OHalsCpE with updated modes that are not declared; round 8: part A stream non_negative_tucker (MU) on "
                        "all-negative / mostly negative / signed / sparse data at caps 1-3 (odd caps for the all-negative data), executed ops OMuCpMask (non_negative_parafac with a 0/1 mask: imputation by the current "
                        "reconstruction before every mode update, exact rationals), OHalsCold (hals_nnls with V=None on the recorded tl.solve answer, toleranced), OHalsNzr (nonzero_rows=True on inputs where binary "
-                       "floating point is exact, compared with atol 0)")
+                       "floating point is exact, compared with atol 0); part A stream non_negative_tucker_hals (fista) with a large core_sparsity_coefficient at caps 2-4 (6 / 36 runs)")
     chk.assumptions = ["exact-arithmetic semantics: floating-point rounding is not modelled (bounded empirically by the toleranced comparison); IEEE inf / NaN are outside the model",
                        "every data- or LAPACK-dependent quantity of the iteration skeletons is an arbitrary function argument (the theorems quantify over all of them); only the formula layer "
                        "and the complete multiplicative-update runs are executed against the implementation",
@@ -1655,6 +1670,14 @@ def run_correspondence(chk, rng):
     for b in broken:
         chk.broken.append({"what": "correspondence corr:C10 shard not evaluated", "detail": b})
     chk.cov["implementation_raised_on_valid_raw_option_calls"] = len(IMPL_REJECTS)
+    searched = set()
+    for m_ in OWN_LS_MISMATCH:
+        key_ = (str(m_["nn_modes"]), m_.get("normalize"), m_.get("init"))
+        if "init" in m_ and key_ not in searched and len(searched) < 4:
+            searched.add(key_)
+            cfg_ = search_failing_input_for_own_ls(m_)
+            if cfg_ is not None:
+                evaluate_cfg(chk, cfg_, {"not_ok": [], "checked": 0, "undeclared_negative": 0})
     for m_ in OWN_LS_MISMATCH:
         chk.disagreement("corr:C10 (parafac2(nn_modes=" + str(m_["nn_modes"]) + ", linesearch=True) built its own _BroThesisLineSearch with nn_modes=" + m_["line_search_nn_modes"] +
                          ", which does not contain every declared mode: Model/Nonneg.v parafac2 / C10_parafac2_own_linesearch take the declared modes)", m_)
@@ -1798,6 +1821,8 @@ def corr_parafac2_iter(rng, tier):
     for k in range(nrun):
         I, J, K = rng.randint(2, 3), rng.randint(2, 4), rng.randint(2, 3)
         R = rng.randint(1, min(J, K, 2))
+        if tier == "quick":
+            R = 1          # a rank-2 iteration costs 13-20 CPU s (3 modes x 100 inner sweeps, evaluated twice): thorough only; quick keeps rank-2 inner HALS in OHalsCpE
         slices = [np.array([[rng.gauss(0, 1) for _ in range(K)] for _ in range(J)]) for _ in range(I)]
         if rng.random() < 0.3:
             slices = [np.abs(s_) for s_ in slices]
@@ -1805,7 +1830,7 @@ def corr_parafac2_iter(rng, tier):
         w = np.ones(R) if rng.random() < 0.5 else np.array([rng.choice([0.5, 2.0, 1.5]) for _ in range(R)])
         projs = [np.linalg.qr(np.array([[rng.gauss(0, 1) for _ in range(R)] for _ in range(J)]))[0] for _ in range(I)]
         nm = rng.random() < 0.4
-        nip = rng.choice([1, 2]) if tier != "quick" else 1
+        nip = rng.choice([1, 2])
         st, r = C.call_impl(lambda: parafac2([s_.copy() for s_ in slices], R, n_iter_max=1, init=(w.copy(), [f.copy() for f in Fs], [p.copy() for p in projs]),
                                              nn_modes="all", linesearch=False, normalize_factors=nm, n_iter_parafac=nip, tol=1e-8), timeout=120)
         if st != "ok" or not finite_all(r[0], *r[1]):
@@ -2025,6 +2050,50 @@ def parafac2_projects_user_line_step():
     return bool(st == "ok" and (np.asarray(r[1][0]) >= 0).all())
 
 
+def probe_own_linesearch_modes():
+    """round 8, deterministic tie (no random draw, ~25 tiny runs): the line-search object parafac2 BUILDS ITSELF for linesearch=True must clip on every declared mode, for every
+    combination of normalize_factors x init x nn_modes form x tensor / slice-list input; read off the object at its first line-search step (cap 7) by interposing line_step"""
+    from tensorly.decomposition import parafac2
+    from tensorly.decomposition import _parafac2 as P2
+    X = (np.arange(1.0, 25.0).reshape(2, 3, 4) * 7 % 11) - 4.0
+    orig_step = P2._BroThesisLineSearch.line_step
+    for nm in (False, True):
+        for init in ("random", "svd"):
+            for nn in ([0], [2], [0, 2], [1, 2], [0, 1, 2], "all"):
+                for as_list in ((False, True) if nn in ([0, 2], "all") else (False,)):
+                    seen = []
+                    def rec_step(self, *a, **k):
+                        seen.append(self.nn_modes)
+                        return orig_step(self, *a, **k)
+                    P2._BroThesisLineSearch.line_step = rec_step
+                    try:
+                        st, r = quiet_call(lambda: parafac2([x_.copy() for x_ in X] if as_list else X.copy(), 2, n_iter_max=7, init=init, random_state=3,
+                                                            nn_modes=nn if nn == "all" else list(nn), linesearch=True, normalize_factors=nm, tol=0, n_iter_parafac=1), timeout=60)
+                    finally:
+                        P2._BroThesisLineSearch.line_step = orig_step
+                    if st == "ok" and seen and not all(set(mode_list(nn)) <= set(mode_list(x_)) for x_ in seen):
+                        OWN_LS_MISMATCH.append({"corr": "parafac2 own line search (deterministic probe)", "nn_modes": nn, "line_search_nn_modes": repr(seen[0]), "normalize": nm, "init": init,
+                                                "slice_list": as_list, "n": 7, "tensor": X})
+
+
+def search_failing_input_for_own_ls(m, budget=150):
+    """a mismatch of probe_own_linesearch_modes is a broken tie; look for a concrete failing input next to it (only runs when a mismatch exists): the same option
+    combination on sparse signed slices at odd caps, until a declared mode comes back with a negative entry"""
+    rs = random.Random(12345)
+    for k in range(budget):
+        I, J, K = rs.randint(2, 4), rs.randint(2, 5), rs.randint(2, 4)
+        R = rs.randint(1, min(J, K, 3))
+        g = np.array([rs.gauss(0, 1) for _ in range(I * J * K)]).reshape(I, J, K) * np.array([rs.random() < 0.5 for _ in range(I * J * K)]).reshape(I, J, K)
+        if not g.any():
+            g[0, 0, 0] = 1.0
+        cfg = dict(algo="parafac2", tensor=g, klass="own-linesearch-search", rank=R, init=m["init"], n=(7, 9, 11)[k % 3], rs=rs.randrange(10 ** 6), nn_modes=m["nn_modes"],
+                   opts=dict(tol=1e-300, normalize=m["normalize"], linesearch=True, n_iter_parafac=1))
+        st, out = C.call_impl(quiet_run, cfg, timeout=60)
+        if st == "ok" and sign_failures(cfg, out):
+            return cfg
+    return None
+
+
 def corr_parafac2_run_g(rng, tier):
     """parafac2(nn_modes = a PARTIAL list or 'all', init=(weights, factors, projections), tol=0, n_iter_max=n), linesearch in {False, True, a _BroThesisLineSearch
     instance made by the caller with its own nn_modes}: the undeclared modes go through tl.solve (elimination inside Coq), the line search clips on the
@@ -2034,6 +2103,7 @@ def corr_parafac2_run_g(rng, tier):
     from tensorly.decomposition import _parafac2 as P2
     out = []
     post_clip = parafac2_projects_user_line_step()
+    probe_own_linesearch_modes()
     nrun = 3 if tier == "quick" else 12
     for k in range(nrun):
         I, J, K = rng.randint(2, 3), rng.randint(2, 3), rng.randint(2, 3)
